@@ -216,7 +216,10 @@ def read_pdb_layout(text):
             events.append(("ENDMDL",))
             model = None
         elif rec == "TER":
-            events.append(("TER", line[21:22]))
+            events.append(("TER", line[21:22].strip()))
+            num = line[22:26]
+            if num.strip() and (num != num.strip().rjust(4) or not num.strip().lstrip("-").isdigit()):
+                problems.append("line %d: TER residue number %r is not right-justified in columns 23-26" % (ln + 1, num))
         elif rec in ("ATOM", "HETATM"):
             try:
                 if line[11] != " " or line[20] != " " or line[27:30] != "   " or line[66:76] != " " * 10:
